@@ -562,6 +562,33 @@ def surface_programs(tier):
                 ("layout-eof", b2 + " \\\n\n"), ("layout-crlf", b2.replace("\n", "\r\n") + "\r\n"), ("layout-eof", "\n\n" + b2 + "\n"),
                 ("layout-eof", "#!x\n# -*- coding: utf-8 -*-\n" + b2 + "\n"), ("layout-dedent2", b2 + "\na\n"),
                 ("layout-dedent2", b2 + "\n  b\n")]  # fmt: skip
+    # --- argument lists and parameter lists: every ordering CPython accepts ---------------
+    # (ast.unparse normalises the order of starred and keyword arguments, so the ASDL-driven
+    # programs never contain e.g. a starred argument after a keyword one)
+    arg_kinds = ["a", "*r", "k=1", "**kw", "*s", "j=2", "b"]
+    n_args = 4 if tier == "thorough" else 3
+    for n in range(0, n_args + 1):
+        for seq in itertools.product(arg_kinds, repeat=n):
+            if len(set(seq)) != len(seq):
+                continue
+            args = ", ".join(seq)
+            out.append(("call-args", f"x = f({args})\n"))
+            out.append(("call-args", f"class A({args}): pass\n"))
+            if tier == "thorough" or n <= 2:
+                out.append(("call-args", f"@d({args})\ndef g(): pass\n"))
+                out.append(("call-args", f"x = f({args},)\n") if seq else ("call-args", "x = f()\n"))
+    param_kinds = ["a", "b=1", "/", "*", "*v", "c", "d=2", "**kw", "e: int", "g: int = 3"]
+    n_params = 5 if tier == "thorough" else 4
+    for n in range(0, n_params + 1):
+        for seq in itertools.product(param_kinds, repeat=n):
+            if len(set(seq)) != len(seq):
+                continue
+            ps = ", ".join(seq)
+            out.append(("def-params", f"def f({ps}): pass\n"))
+            if not any(":" in x for x in seq):
+                out.append(("def-params", f"x = lambda {ps}: 0\n"))
+            if tier == "thorough":
+                out.append(("def-params", f"async def f({ps}): pass\n"))
     res, seen = [], set()
     for label, src in out:
         if src not in seen and compiles(src):
